@@ -207,7 +207,8 @@ def main(ctx):
     total = 30000 if ctx.thorough else 3000
     static_check(
         ctx, "static", total, extra="--q DC,DS --cert 1",
-        more_runs=[("static", 0, "--q DC,DS --cert 1 --exhaustive %d" % 3)],
+        more_runs=[("static", 0, "--q DC,DS --cert 1 --exhaustive %d" % 3),
+                   ("static", 600 if ctx.thorough else 60, "--q DC,DS --cert 1 --large")],
         rule="acceptance queries WITH certificate (all DC/DS trait implementations x selectable encoders) on all frameworks with <= %d arguments exhaustively and generated frameworks with several components and sparse ids; traces replayed on Model.Solvers; judged by brute force: certificate present exactly for DC-YES / DS-NO, is an extension of the queried semantics (complete for the CO solver) containing / omitting the argument, members are (id,label) pairs of the caller's framework, each once"
              % 3,
         finish=False, extra_props=("C04labels",),
